@@ -33,7 +33,9 @@ Definition rank_fuel_ok (g : grammar) (A : automaton) (input : list N) (ifuel TR
     | [] => true
     | s0 :: _ =>
         match apply_seq g A input ifuel s0 0 stk p None with
-        | Done (stk', p', _) => parse_far_ok g A input ifuel (length input + 2) stk' p' (p + TRY)
+        | Done (stk', p', _) =>
+            (* lr_upto is only called when the candidate's repairs ended before the limit (/repo 00915cc) *)
+            if (p' <? p + TRY)%nat then parse_far_ok g A input ifuel (length input + 2) stk' p' (p + TRY) else true
         | _ => true
         end
     end) cnds.
@@ -101,14 +103,14 @@ Notation sim := (search_sim_validated g A nl fs Hwf HS HE Hfr HC1 HC2 HC3 HC4 Hp
 
 (* how far plain parsing (at reduction fuel f) gets from the node's own configuration *)
 Definition node_far_at (f : nat) (n : node) : nat :=
-  parse_far g A input f (length input + 2) (n_stk n) (n_la n) (p0 + TRY).
+  cap_dist (parse_far g A input f (length input + 2) (n_stk n) (n_la n) (p0 + TRY)) (n_la n) (p0 + TRY).
 
 Lemma in_range_prefix s1 s2 : seq_in_range g (s1 ++ s2) -> seq_in_range g s1.
 Proof. intros H t Ht. apply H. apply in_or_app. left. exact Ht. Qed.
 
 Lemma far_of_replay f s' Sk q :
   apply_seq g A input f s' 0 stk0 p0 None = Done (Sk, q, None) ->
-  far g A input f TRY stk0 p0 s' = parse_far g A input f (length input + 2) Sk q (p0 + TRY).
+  far g A input f TRY stk0 p0 s' = cap_dist (parse_far g A input f (length input + 2) Sk q (p0 + TRY)) q (p0 + TRY).
 Proof.
   intros H. unfold far. rewrite (proj2 (srun_is_apply_seq g A input f s' 0%nat stk0 p0 Sk q) H). reflexivity.
 Qed.
@@ -138,7 +140,7 @@ Proof.
       as (F2 & x & Hx).
     exists (Nat.max (Nat.max F1 F2) 1). intros f Hf.
     split; [|exists Sk'; apply Hrep; lia].
-    rewrite (far_of_replay f s' Sk' (n_la n) (Hrep f ltac:(lia) 0%nat)). unfold node_far_at.
+    rewrite (far_of_replay f s' Sk' (n_la n) (Hrep f ltac:(lia) 0%nat)). unfold node_far_at. apply cap_dist_ext.
     rewrite !parse_far_stuck; [reflexivity| |].
     + intros y. unfold lr_upto1. rewrite Hnp.
       destruct f as [|f']; [lia|]. rewrite (advance_accept_direct g A f' _ _ _ Eact). discriminate.
@@ -164,7 +166,7 @@ Proof.
       replace (length input <? p1)%nat with false in Happly by (symmetry; apply Nat.ltb_ge; exact Hp1).
       rewrite (Hx F ltac:(lia)) in Happly. injection Happly as <- _. reflexivity. }
     subst Sk'. exists F. intros f Hf. split; [|exists x; apply Hrep; lia].
-    rewrite (far_of_replay f _ x (n_la n) (Hrep f ltac:(lia) 0%nat)). unfold node_far_at.
+    rewrite (far_of_replay f _ x (n_la n) (Hrep f ltac:(lia) 0%nat)). unfold node_far_at. apply cap_dist_ext.
     rewrite (parse_far_states g A input f _ x sr _ _ Ex).
     destruct Hshape as [HY|(Z & HZ & _ & HY)].
     + apply parse_far_states. congruence.
@@ -319,7 +321,8 @@ Proof.
       cbn [obind] in H; try discriminate.
     injection H as <-. cbn [map]. rewrite Eu. f_equal.
     + f_equal. rewrite <- Hfar, (far_of_replay f s0 Sk' (n_la n) Happly).
-      symmetry. apply (parse_far_more_fuel g A input ifuel f Hle). exact Hok1.
+      unfold cap_dist. destruct (n_la n <? p0 + TRY)%nat; [|reflexivity].
+      f_equal. symmetry. apply (parse_far_more_fuel g A input ifuel f Hle). exact Hok1.
     + apply IH; [|exact Hok|reflexivity].
       intros n' s Hn' Hs. apply Hfacts; [right; exact Hn'|exact Hs].
 Qed.
